@@ -1,0 +1,56 @@
+//! Verification hooks (only compiled with `--cfg boa_verif`).
+//!
+//! Everything in here is inert unless a test harness turns it on through the
+//! thread-local switches. Nothing in this module changes engine behaviour when
+//! the switches are in their default state.
+
+use std::cell::Cell;
+
+use crate::Context;
+
+thread_local! {
+    static IC_DISABLED: Cell<bool> = const { Cell::new(false) };
+    static IC_HITS: Cell<u64> = const { Cell::new(0) };
+    static IC_MISSES: Cell<u64> = const { Cell::new(0) };
+    static IC_STORES: Cell<u64> = const { Cell::new(0) };
+}
+
+/// Depths of the VM as seen from the host: `(call frames, value-stack length, pending exception?)`.
+#[must_use]
+pub fn vm_depths(context: &Context) -> (usize, usize, bool) {
+    (
+        context.vm.frames.len(),
+        context.vm.stack.verif_len(),
+        context.vm.pending_exception.is_some(),
+    )
+}
+
+/// Makes every inline cache lookup miss and every inline cache store a no-op.
+pub fn set_ic_disabled(disabled: bool) {
+    IC_DISABLED.with(|c| c.set(disabled));
+}
+
+pub(crate) fn ic_disabled() -> bool {
+    IC_DISABLED.with(Cell::get)
+}
+
+pub(crate) fn ic_event(hit: bool) {
+    if hit {
+        IC_HITS.with(|c| c.set(c.get() + 1));
+    } else {
+        IC_MISSES.with(|c| c.set(c.get() + 1));
+    }
+}
+
+pub(crate) fn ic_store_event() {
+    IC_STORES.with(|c| c.set(c.get() + 1));
+}
+
+/// Returns and resets the inline cache counters `(hits, misses, stores)`.
+pub fn take_ic_counters() -> (u64, u64, u64) {
+    (
+        IC_HITS.with(|c| c.replace(0)),
+        IC_MISSES.with(|c| c.replace(0)),
+        IC_STORES.with(|c| c.replace(0)),
+    )
+}
